@@ -83,13 +83,17 @@ def compare_value_arrays(Vimpl, Vmodel, n_periods, tol=None):
 # ======================================================================================
 # simulation
 # ======================================================================================
-def init_impl(mj, init):
-    """harness initial states {state: [Fr...]} -> dict of jnp arrays (ints for discrete states)"""
+def init_impl(mj, init, int_cont=False):
+    """harness initial states {state: [Fr...]} -> dict of jnp arrays (ints for discrete states).
+    `int_cont`: continuous states whose initial values are all integers are passed with an integer dtype
+    (a legal input: upstream's own tests pass `jnp.array([0, 4])` for wealth)."""
     I = impl()
     G = dict((k, g) for k, g in mj["states"])
     out = {}
     for s, vals in init.items():
         if G[s]["k"] == "disc":
+            out[s] = I.jnp.array([int(v) for v in vals])
+        elif int_cont and all(Fr(v).denominator == 1 for v in vals):
             out[s] = I.jnp.array([int(v) for v in vals])
         else:
             out[s] = I.jnp.array([float(v) for v in vals])
@@ -218,7 +222,14 @@ def _eq(a, b, tol):
     if a in ("-inf",) or b in ("-inf",):
         return a == b
     if tol is None:
-        return Fr(a) == Fr(b)
+        if Fr(a) == Fr(b):
+            return True
+        from common import INEXACT, INEXACT_RTOL
+
+        if abs(Fr(a) - Fr(b)) <= Fr(INEXACT_RTOL) * max(Fr(1), abs(Fr(b))):
+            INEXACT["count"] += 1
+            return True
+        return False
     return abs(float(Fr(a)) - float(Fr(b))) <= tol * max(1.0, abs(float(Fr(b))))
 
 
